@@ -232,6 +232,13 @@ def configs(tier):
                             procs=procs, jobs=[dict(
                                 kind=kind, fn='raise_if', partial=n - 1,
                                 items=items, chunksize=2)]))
+    for kind in ('imap', 'imap_unordered'):
+        out.append(dict(name='map-then-empty-%s' % kind, procs=2, jobs=[
+            dict(kind='map', fn='typed', items=[0, 1], chunksize=1),
+            dict(kind=kind, fn='typed', items=[])]))
+        out.append(dict(name='%s-then-%s' % (kind, kind), procs=2, jobs=[
+            dict(kind=kind, fn='typed', items=[0, 1]),
+            dict(kind=kind, fn='typed', items=[5])]))
     out.append(dict(name='apply/ok+boom+none', procs=2, jobs=[
         dict(kind='apply', fn='typed', arg=5, tq=True),
         dict(kind='apply', fn='boom', arg=7, tq=True),
